@@ -134,11 +134,14 @@ def export_decode(text, root_label='VROOT'):
         order = []
         tabs_ok = True
         for ln in s['lines']:
-            if '%%' in ln:
-                ln = ln[:ln.index('%%')]
             if '\t' not in ln:
                 tabs_ok = False
             f = ln.split()
+            # a comment starts with a field %% *after* the required fields
+            for ci in range(5, len(f)):
+                if f[ci].startswith('%%'):
+                    f = f[:ci]
+                    break
             if len(f) < 5:
                 raise ValueError('too few fields: %r' % ln)
             is4 = fmt4 if fmt4 is not None else not f[4].isdigit() \
